@@ -722,3 +722,34 @@ def bridge_compare(real, model, br):
         diffs.append("index diagnostics differ: indexer model %s, real log %s" % (
             json.dumps([bfr(d) for d in br["diags"]])[:200], json.dumps([mfr(d) for d in model["diags"]])[:200]))
     return diffs
+
+
+# ---- the hand model SymbolMap.v is the translated source (tie of group "lines") ----------------------------------
+SOURCE_TRANSLATOR = "t_symbolmap"
+SOURCE_THEOREMS = ["SymbolMap_model_is_source", "SymbolMap_model_is_source_nonvacuous"]
+SOURCE_TRUSTED = ("the hand model coq/model/SymbolMap.v is tied to crates/ide/src/symbol_map.rs + symbol_map/*.rs twice: by translation + proof "
+                  "(t_symbolmap -> coq/gen/GenSymbolMap.v, proofs/GenSymbolMapEq.v, props/SymbolMapSource.v SymbolMap_model_is_source: every "
+                  "mutator = apply_op of its op, every reader = the model's reader; design/notes-translator-symbolmap.md; trusted there: the "
+                  "translator t_symbolmap and the contracts model/SymbolMapSrc.v of iset / id_arena / HashMap) and by replaying the real op log")
+
+
+def extra_props(ctx, fails, module, theorems, target, trusted):
+    """a further props module whose theorems are obligations of the check (translators of its cone must be among the
+    translators of the check's proof_step, which runs before this)"""
+    r = vlib.prove(module, theorems, [target])
+    fails += r["failures"]
+    short = module.split(".")[-1]
+    ctx.cov["obligations"] = ctx.cov.get("obligations", 0) + r["obligations"]
+    ctx.cov["discharged"] = ctx.cov.get("discharged", 0) + r["discharged"]
+    ctx.cov["theorems"] = list(ctx.cov.get("theorems", [])) + [short + "." + t for t in theorems]
+    apt = dict(ctx.cov.get("axioms_per_theorem", {}))
+    apt.update({short + "." + k: v for k, v in r["assumptions"].items()})
+    ctx.cov["axioms_per_theorem"] = apt
+    ctx.cov["trusted_base"] = list(ctx.cov.get("trusted_base", [])) + [trusted]
+    ctx.cov["coq_wall_s"] = round(ctx.cov.get("coq_wall_s", 0) + r["wall_s"], 2)
+    return r
+
+
+def source_tie(ctx, fails):
+    """obligation shared by C03 / C06 / C17: SymbolMap_model_is_source for the CURRENT source text"""
+    return extra_props(ctx, fails, "TG.Props.SymbolMapSource", SOURCE_THEOREMS, "props/SymbolMapSource.vo", SOURCE_TRUSTED)
